@@ -138,7 +138,7 @@ func C01(c *vh.Ctx) {
 	c.Bound("S1_pattern_nodes_max", pmax)
 	c.Bound("S1_message_nodes_max", mmax)
 	c.Rule("S1: every (pattern,message,bindings) with |P|<=bound, |M|<=bound over atoms {1,2,\"a\",true,null}, keys {a,b}, variables " + fmt.Sprint(c01Vars) +
-		", bindings = {} / each variable x value list / each pair x short list. S2 (pattern-directed): every pattern with variables up to a larger bound over a two-letter alphabet (incl. inequality variables), every assignment of planted values / inequality bounds, messages = the instantiated pattern plus every combination of up to k edits (insertions of extra keys/elements incl. near-copies, atom changes, dropped keys, dropped or duplicated array elements), bindings = the inequality bounds plus nothing / each variable pre-bound to its planted value, to generalisations of it, or to conflicting values; the unedited core also wrapped 1-4 levels deep. S3 (wide arrays): pattern arrays of 2-5 structured elements with distinct variables (maps, arrays, mixed; with and without an array variable; bare and under a key) against message arrays with as many or one more ambiguous elements. S4 (look-alikes): scalars of different JSON types that print alike (1 / \"1\", true / \"true\", null / \"null\", 0 / false / \"\") as array members, map values, property-variable values and bound values. Enumeration is an odometer (duplicate-free); non-trivial = Match returned >=1 binding set for a pattern that has variables.")
+		", bindings = {} / each variable x value list / each pair x short list. S2 (pattern-directed): every pattern with variables up to a larger bound over a two-letter alphabet (incl. inequality variables), every assignment of planted values / inequality bounds, messages = the instantiated pattern plus every combination of up to k edits (insertions of extra keys/elements incl. near-copies, atom changes, dropped keys, dropped or duplicated array elements), bindings = the inequality bounds plus nothing / each variable pre-bound to its planted value, to generalisations of it, or to conflicting values; the unedited core also wrapped 1-4 levels deep. S3 (wide arrays): pattern arrays of 2-5 structured elements with distinct variables (maps, arrays, mixed; with and without an array variable; bare and under a key) against message arrays with as many or one more ambiguous elements. S5 (bound arrays): a variable given, or bound earlier in the same match, to a value holding an array of 2-3 members (scalars, maps, arrays, repeated members), against message arrays with fewer members that cover several of them. S4 (look-alikes): scalars of different JSON types that print alike (1 / \"1\", true / \"true\", null / \"null\", 0 / false / \"\") as array members, map values, property-variable values and bound values. Enumeration is an odometer (duplicate-free); non-trivial = Match returned >=1 binding set for a pattern that has variables.")
 	pats := ps.UpTo(pmax)
 	msgs := ms.UpTo(mmax)
 	if c.Shard == 0 {
@@ -162,6 +162,13 @@ func C01(c *vh.Ctx) {
 		}
 	}
 	c01S2(c)
+	// S5: bound variables holding arrays
+	for i, cs := range boundArrayCases() {
+		if c.Mine(uint64(i)) {
+			soundOne(c, cs, true)
+			c.Count("S5_evaluations", 1)
+		}
+	}
 	// S4: scalars of different types that print alike
 	for i, cs := range lookAlikeCases() {
 		if c.Mine(uint64(i)) {
@@ -253,6 +260,38 @@ func lookAlikeCases() []matchCase {
 				}
 				out = append(out, matchCase{P: []interface{}{a, "?x"}, M: []interface{}{a, b, c3}, B: M{}}, matchCase{P: []interface{}{a, b}, M: []interface{}{b, c3, a}, B: M{}})
 			}
+		}
+	}
+	return out
+}
+
+// boundArrayCases: a variable that is already bound (given, or bound earlier in the same match) to a value
+// holding an array of two or three members, against message arrays with fewer, covering members: a bound
+// value is re-used as a sub-pattern, so its array members need distinct message members too.
+func boundArrayCases() []matchCase {
+	elems := []interface{}{1.0, "a", M{"p": 1.0}, M{"q": 2.0}, M{"p": 1.0, "q": 2.0}, []interface{}{1.0}}
+	var arrays []interface{}
+	for _, a := range elems {
+		for _, b := range elems {
+			arrays = append(arrays, []interface{}{a, b})
+		}
+	}
+	arrays = append(arrays, []interface{}{M{"p": 1.0}, M{"q": 2.0}, M{"p": 1.0}}, []interface{}{1.0, 1.0, 1.0})
+	msgArrays := []interface{}{
+		[]interface{}{M{"p": 1.0, "q": 2.0}}, []interface{}{1.0}, []interface{}{"a", 1.0}, []interface{}{M{"p": 1.0}}, []interface{}{M{"p": 1.0, "q": 2.0}, "a"},
+		[]interface{}{[]interface{}{1.0, 2.0}}, []interface{}{M{"p": 1.0, "q": 2.0}, M{"p": 1.0}}, []interface{}{},
+	}
+	var out []matchCase
+	for _, arr := range arrays {
+		for _, ma := range msgArrays {
+			out = append(out,
+				matchCase{P: M{"a": "?x"}, M: M{"a": ma}, B: M{"?x": arr}},
+				matchCase{P: "?x", M: ma, B: M{"?x": arr}},
+				matchCase{P: M{"a": "?x", "b": "?x"}, M: M{"a": arr, "b": ma}, B: M{}},
+				matchCase{P: M{"a": "?x"}, M: M{"a": M{"deep": ma}}, B: M{"?x": M{"deep": arr}}},
+				matchCase{P: []interface{}{"?x"}, M: []interface{}{ma}, B: M{"?x": arr}},
+				matchCase{P: M{"?k": "?x"}, M: M{"p": ma, "q": arr}, B: M{"?x": arr}},
+			)
 		}
 	}
 	return out
